@@ -455,7 +455,8 @@ class Interp:
     HONOR_GETATTRIBUTE = ("DataFrame", "GeoJSON")
 
     def instance_getattr(self, obj, name, plain=False):
-        if not plain and any(isinstance(c, ClassObj) and c.name in self.HONOR_GETATTRIBUTE for c in self.mro(obj.cls)):
+        honor = self.HONOR_GETATTRIBUTE + (("ListOfDicts",) if getattr(self, "config", {}).get("honor_lod_getattribute") else ())
+        if not plain and any(isinstance(c, ClassObj) and c.name in honor for c in self.mro(obj.cls)):
             ok, ga = self.class_attr(obj.cls, "__getattribute__")
             if ok:
                 return self.call(ga, [obj, name], {})
